@@ -87,6 +87,56 @@ theorem request_envelope (S : Schema) (hwf : WFSchema S) (f : String) (ps : List
 /-- the two transport constructors of the envelope are the ones lite_api.tl declares -/
 theorem envelope_decls_in_liteapi : adnlQueryDecl ∈ liteApi.types ∧ adnlAnswerDecl ∈ liteApi.types := by decide
 
+/-! ### Answers -/
+
+/-- **answers**: what a generated `(*Client).F` makes of the server's bytes. (1) The encoding of a value `v` of the
+function's result type (boxed: constructor id + fields), followed by anything, is returned as `v` — provided no
+constructor of the result type shares its id with `liteServer.error`, which is tested first. (2) The encoding of a
+`liteServer.error` is returned as that error. -/
+theorem answer_decodes (S : Schema) (hwf : WFSchema S) (f : String) (d e : Decl) (hf : S.func? f = some d)
+    (he : S.ctor? errorCtor = some e) (fuel : Nat) (rest : Bytes) :
+    (∀ c fs bs, encode S (.boxed d.result) (.sum c fs) = some bs → depthList fs ≤ fuel →
+        (∀ cd, S.ctorOf? d.result c = some cd → cd.id ≠ e.id) →
+        decodeAnswer S fuel f (bs ++ rest) = .ok (.result (.sum c fs))) ∧
+    (∀ evs eb, encodeFields S e.fields [] evs = some eb → depthList evs ≤ fuel → e.id < 2 ^ 32 →
+        decodeAnswer S fuel f (le 4 e.id ++ eb ++ rest) = .ok (.serverError evs)) := by
+  constructor
+  · intro c fs bs henc hfuel hne
+    have hdec := C09.tl_decode_encode S hwf _ _ bs rest (fuel + 1) henc (by simp [Val.depth]; omega)
+    simp only [encode] at henc
+    cases hc : S.ctorOf? d.result c with
+    | none => simp [hc] at henc
+    | some cd =>
+      simp only [hc] at henc
+      obtain ⟨b, hb, rfl⟩ := map_append_eq_some henc
+      have hid := id_lt_of_ctorOf S hwf _ _ cd hc
+      have hmem : cd ∈ S.ctorsOf d.result := by
+        have h1 := List.mem_of_find?_eq_some hc
+        have h2 := List.find?_some hc
+        simp only [Bool.and_eq_true, beq_iff_eq] at h2
+        simp [Schema.ctorsOf, h1, h2.1]
+      simp only [decodeAnswer, hf, he, List.append_assoc, readLE4 cd.id _ hid, hne cd hc, if_false]
+      split
+      · rename_i c' hcs
+        rw [hcs] at hmem
+        have : cd = c' := by simpa using hmem
+        subst this
+        simp only [if_true, C09.tl_fields_decode_encode S hwf cd.fields [] fs b rest fuel hb hfuel,
+          ctorOf_ctor S _ c cd hc]
+      · simp only [List.append_assoc] at hdec
+        simp only [hdec]
+  · intro evs eb henc hfuel hid
+    simp only [decodeAnswer, hf, he, List.append_assoc, readLE4 e.id _ hid, if_true,
+      C09.tl_fields_decode_encode S hwf e.fields [] evs eb rest fuel henc hfuel]
+
+/-- a result type with a single constructor: any other leading id than that constructor's or `liteServer.error`'s is
+refused ("invalid tag") -/
+theorem answer_wrong_tag (S : Schema) (f : String) (d e c : Decl) (hf : S.func? f = some d)
+    (he : S.ctor? errorCtor = some e) (hc : S.ctorsOf d.result = [c]) (fuel tag : Nat) (rest : Bytes)
+    (ht : tag < 2 ^ 32) (h1 : tag ≠ e.id) (h2 : tag ≠ c.id) :
+    decodeAnswer S fuel f (le 4 tag ++ rest) = .err "invalid tag" := by
+  simp [decodeAnswer, hf, he, hc, readLE4 tag rest ht, h1, h2]
+
 /-! ### Constructor ids
 
 That every id of lite_api.tl equals the CRC-32 of its declaration text is a finite computation over the regenerated
